@@ -109,14 +109,43 @@ def one_site_wrapper(table_row, table_col, in_ops_list, factor, primary_ops, alg
     return out_ops, table, nfactor
 
 
-def graph_wrapper(term_row, term_col, non_red, in_ops_list, factor, primary_ops, algo, k=1):
-    rec = LOG["cur"]
+def log_unique(rec, term_row, term_col, non_red):
+    """the unique-rows step as the decomposition sees it: term_row, term_col and, recovered from the incidence matrix
+    (entry = term number + 1 at (row index, column index)), the row / column index every term was given"""
     rec["term_row"] = np.array(term_row).tolist()
     rec["term_col"] = [np.array(c).tolist() for c in term_col]
+    coo = non_red.tocoo()
+    nt = len(rec["trow"])
+    rinv, cinv = [None] * nt, [None] * nt
+    ok = True
+    for i, j, v in zip(coo.row.tolist(), coo.col.tolist(), coo.data.tolist()):
+        t = int(v) - 1
+        if 0 <= t < nt and rinv[t] is None:
+            rinv[t], cinv[t] = int(i), int(j)
+        else:
+            ok = False           # two terms fell on one incidence entry (their numbers were added) or an index is out of range
+    rec["row_inverse"] = rinv
+    rec["col_inverse"] = cinv
+    rec["incidence_ok"] = ok and all(x is not None for x in rinv)
+
+
+def graph_wrapper(term_row, term_col, non_red, in_ops_list, factor, primary_ops, algo, k=1):
+    rec = LOG["cur"]
+    log_unique(rec, term_row, term_col, non_red)
     rec["rows_lt_cols"] = bool(non_red.shape[0] < non_red.shape[1])
     indptr = non_red.indptr.copy()
     rec["degree"] = [int(indptr[i + 1] - indptr[i]) for i in range(non_red.shape[0])]
     return _orig_graph(term_row, term_col, non_red, in_ops_list, factor, primary_ops, algo, k)
+
+
+_orig_qr = sm._decompose_qr
+
+
+def qr_wrapper(term_row, term_col, non_red, in_ops_list, factor, primary_ops, algo, k=1):
+    rec = LOG.get("cur")
+    if rec is not None:
+        log_unique(rec, term_row, term_col, non_red)
+    return _orig_qr(term_row, term_col, non_red, in_ops_list, factor, primary_ops, algo, k)
 
 
 def cover_wrapper(bigraph, algo="Hopcroft-Karp"):
@@ -130,6 +159,7 @@ def cover_wrapper(bigraph, algo="Hopcroft-Karp"):
 
 st._construct_symbolic_mpo_one_site = one_site_wrapper
 sm._decompose_graph = graph_wrapper
+sm._decompose_qr = qr_wrapper
 sm.bipartite_vertex_cover = cover_wrapper
 
 
@@ -303,7 +333,7 @@ def run_case(case, rng):
             for s_ in allstr:
                 c = coeff_q(s_)
                 qc.append(None if c is None else [c.numerator, c.denominator.bit_length() - 1])
-            res["qr"] = {"steps": [{k: st_[k] for k in ("trow", "tcol", "factor", "out_ops", "new_table", "new_factor")} for st_ in qsteps],
+            res["qr"] = {"steps": [{k: st_.get(k) for k in ("trow", "tcol", "factor", "out_ops", "new_table", "new_factor", "term_row", "term_col", "row_inverse", "col_inverse", "incidence_ok")} for st_ in qsteps],
                          "mo_coeff": qc}
         except Exception as e:
             res["qr"] = {"error": "%s: %s" % (type(e).__name__, e)}
